@@ -202,32 +202,58 @@ def r2(db, rep):
     rep.analysed(fn)
     want = {"PF_R": "READ", "PF_W": "WRITE", "PF_X": "EXECUTE"}
     got = {}
+    PERMS = ("READ", "WRITE", "EXECUTE", "NONE", "ALL")
+
+    def pf_of(n):
+        return [last_seg(x["res"].get("def", "")) for x in walk(n) if x.get("k") == "Path" and last_seg(x["res"].get("def", "") or "").startswith("PF_")]
+
+    def perm_of(n):
+        return [last_seg(x["res"].get("def", "")) for x in walk(n) if x.get("k") == "Path" and last_seg(x["res"].get("def", "") or "") in PERMS]
+
+    def is_ptload_test(c, op="Eq"):
+        c = unq(c)
+        return c.get("k") == "Binary" and c.get("op") == op and any(last_seg(x["res"].get("def", "") or "") == "PT_LOAD" for x in walk(c) if x.get("k") == "Path") \
+            and any(x.get("k") == "Field" and x.get("name") == "p_type" for x in walk(c))
+
+    # form 1: `if flags & PF_x != 0 { permissions |= Y }`; form 2: a table of (PF_x, Y) pairs selected by `flags & flag != 0`
     for n in walk(hb["body"]):
         if n.get("k") == "If":
-            flag = [last_seg(x["res"].get("def", "")) for x in walk(n["c"]) if x.get("k") == "Path" and last_seg(x["res"].get("def", "") or "").startswith("PF_")]
-            perm = [last_seg(x["res"].get("def", "")) for x in walk(n["then"]) if x.get("k") == "Path" and last_seg(x["res"].get("def", "") or "") in ("READ", "WRITE", "EXECUTE", "NONE", "ALL")]
+            flag, perm = pf_of(n["c"]), perm_of(n["then"])
             if len(flag) == 1:
                 got[flag[0]] = perm
+    if not got:
+        masked = any(x.get("k") == "Binary" and x.get("op") == "BitAnd" and any(y.get("k") == "Field" and y.get("name") == "p_flags" for y in walk(x))
+                     for x in walk(hb["body"]))
+        for n in walk(hb["body"]):
+            if n.get("k") == "Tup" and len(n.get("es", [])) == 2 and len(pf_of(n["es"][0])) == 1 and masked:
+                got[pf_of(n["es"][0])[0]] = perm_of(n["es"][1])
     for f, p in want.items():
         r.decide(got.get(f) == [p], "memory|%s" % f, db.where(hb), "%s maps to %s, expected %s" % (f, got.get(f), p))
+    # only PT_LOAD headers reach set_memory, and every one does: either the mapping code sits in `if p_type == PT_LOAD {..}`, or the
+    # loop runs over headers filtered by that test
+    total = sum(1 for x in walk(hb["body"]) if last_seg(callee(x) or "") == "set_memory")
     ptload = False
-    for n in walk(hb["body"]):
-        if n.get("k") == "If":
-            c = unq(n["c"])
-            if c.get("k") == "Binary" and c.get("op") == "Eq" and any(last_seg(x["res"].get("def", "") or "") == "PT_LOAD" for x in walk(c) if x.get("k") == "Path"):
-                inside = any(last_seg(callee(x) or "") == "set_memory" for x in walk(n["then"]))
-                outside = sum(1 for x in walk(hb["body"]) if last_seg(callee(x) or "") == "set_memory")
-                ptload = inside and outside == 1
-    r.decide(ptload, "memory|PT_LOAD_only", db.where(hb), "set_memory must be called only under p_type == PT_LOAD")
-    # ... and every PT_LOAD header reaches it: inside the PT_LOAD branch no `continue` / early exit other than an error return
     skip = None
     for n in walk(hb["body"]):
-        if n.get("k") == "If":
-            c = unq(n["c"])
-            if c.get("k") == "Binary" and c.get("op") == "Eq" and any(last_seg(x["res"].get("def", "") or "") == "PT_LOAD" for x in walk(c) if x.get("k") == "Path"):
-                for x in walk(n["then"]):
-                    if x.get("k") in ("Continue", "Break"):
-                        skip = x
+        if n.get("k") == "If" and is_ptload_test(n["c"]):
+            inside = any(last_seg(callee(x) or "") == "set_memory" for x in walk(n["then"]))
+            ptload = inside and total == 1
+            for x in walk(n["then"]):
+                if x.get("k") in ("Continue", "Break"):
+                    skip = x
+    if not ptload:
+        for n in walk(hb["body"]):
+            if n.get("k") == "Match" and n.get("src") == "For":
+                filt = [x for x in walk(n["scrut"]) if x.get("k") == "MethodCall" and x["name"] == "filter" and x["args"] and
+                        x["args"][0].get("k") == "Closure" and is_ptload_test(x["args"][0]["body"])]
+                inside = any(last_seg(callee(x) or "") == "set_memory" for a_ in n["arms"] for x in walk(a_["body"]))
+                if filt and inside and total == 1:
+                    ptload = True
+                    for a_ in n["arms"]:
+                        for x in walk(a_["body"]):
+                            if x.get("k") in ("Continue", "Break") and x.get("mac") is None:
+                                skip = x
+    r.decide(ptload, "memory|PT_LOAD_only", db.where(hb), "set_memory must be called only under p_type == PT_LOAD")
     r.decide(skip is None, "memory|every_PT_LOAD_mapped", db.where(hb, skip["l"]) if skip else db.where(hb),
              "a PT_LOAD segment can be skipped (continue/break inside the PT_LOAD branch): e.g. a segment with p_filesz == 0 and "
              "p_memsz > 0 (.bss only) must still be mapped as zeros with its permissions")
